@@ -16,6 +16,7 @@ import (
 	"verifkit/gram"
 	"verifkit/shape"
 	"verifkit/vwire"
+	"verifkit/wire"
 
 	"pgregory.net/rapid"
 )
@@ -361,5 +362,134 @@ func TestC03Detection(t *testing.T) {
 			return c
 		},
 		Check: c03Check,
+	})
+}
+
+// ---------------------------------------------------------------- bursts of replies against a slow consumer of the output
+
+type c03BurstCase struct {
+	Cmd     string `json:"command"`
+	Replies int    `json:"replies_in_one_burst"`
+	SlowUs  int    `json:"consumer_pause_us_per_256_bytes"`
+	Seed    int64  `json:"rand_seed"`
+}
+
+func c03BurstCheck(c c03BurstCase) *kit.Verdict {
+	v := &kit.Verdict{Units: c.Replies}
+	kind := scanKind(c.Cmd)
+	v.Label("scan=%s", kind)
+	want := map[string]int{}
+	var frames [][]byte
+	for i := 0; i < c.Replies; i++ {
+		src := uint32(10<<24|9<<16) + uint32(i%4)
+		// distinct records: vary ttl / port / mac with i
+		var fr []byte
+		switch kind {
+		case "arp":
+			ipb := gram.U32Bytes(src)
+			mac := []byte{2, 7, byte(i >> 16), byte(i >> 8), byte(i), 9}
+			var sm [6]byte
+			copy(sm[:], mac)
+			fr = append(wire.Eth{Dst: [6]byte{2, 0, 0, 0, 0, 1}, Src: sm, Type: wire.EtherARP}.Bytes(),
+				wire.ARP{HType: 1, PType: 0x0800, HLen: 6, PLen: 4, Op: 2, SHA: mac, SPA: ipb[:], THA: []byte{2, 0, 0, 0, 0, 1}, TPA: []byte{10, 250, 0, 1}}.Bytes()...)
+		case "icmp":
+			s4, d4 := gram.U32Bytes(src), [4]byte{10, 250, 0, 1}
+			ip := wire.IPv4{ID: uint16(i), Flags: 2, TTL: uint8(1 + i%250), Proto: wire.ProtoICMP, Src: s4, Dst: d4}.Bytes(wire.ICMP{Type: []uint8{0, 3, 11, 13, 14, 5, 12}[i/250%7], Code: uint8(i / 1750), ID: 1, Seq: uint16(i)}.Bytes([]byte("burst")))
+			fr = append(wire.Eth{Dst: [6]byte{2, 0, 0, 0, 0, 1}, Src: [6]byte{2, 0, 0, 0, 0, 2}, Type: wire.EtherIPv4}.Bytes(), ip...)
+		default:
+			src = uint32(10<<24 | 9<<16) // one target, 3000 ports
+			fr = c16Reply(kind, true, src, uint16(1000+i%3000))
+			if i >= 3000 {
+				// flags differ for the second lap over the ports
+				fr = nil
+			}
+		}
+		if fr == nil {
+			continue
+		}
+		bits := 30
+		if kind != "arp" && kind != "icmp" {
+			bits = 32
+		}
+		s := shape.Scan{Kind: kind, Ethernet: true, Subnet: &gram.Prefix{Base: 10<<24 | 9<<16, Bits: bits, Addr: 10<<24 | 9<<16},
+			Ports: []gram.PortRange{{Start: 1000, End: 3999}}, AllPorts: []gram.PortRange{{Start: 1000, End: 3999}}}
+		if kind == "arp" || kind == "icmp" {
+			s.Ports, s.AllPorts = nil, nil
+		}
+		verdict, key := shape.Classify(s, fr)
+		if verdict != shape.Yes {
+			return v.Failf("harness: burst frame %d is not reply-shaped (%s)", i, key)
+		}
+		want[key]++
+		frames = append(frames, fr)
+	}
+	fired := false
+	sc := vwire.Scenario{OnWrite: func(w *vwire.World, s *vwire.Socket, wr *vwire.Write) error {
+		if !fired {
+			fired = true
+			for _, fr := range frames {
+				s.Inject(fr)
+			}
+		}
+		return nil
+	}}
+	files := &cmdFiles{}
+	defer files.cleanup()
+	args := append([]string{}, strings.Fields(c.Cmd)...)
+	args = append(args, "-i", "lo", "--srcip", c01SrcIP, "--srcmac", c01SrcMAC, "--json", "--exit-delay", "1500ms")
+	if kind != "arp" {
+		args = append(args, "--gwmac", c01GwMAC, "-a", files.write("arpcache", ""))
+	}
+	if kind != "arp" && kind != "icmp" {
+		args = append(args, "-p", "1000-3999", "10.9.0.0/32")
+	} else {
+		args = append(args, "10.9.0.0/30")
+	}
+	res := runCmd(cmdRun{Args: args, Seed: c.Seed, World: vwire.NewWorld(sc), Timeout: 120 * time.Second,
+		SlowFor: 200 * time.Millisecond, SlowPause: time.Duration(c.SlowUs) * time.Microsecond})
+	line := "sx " + strings.Join(args, " ")
+	if res.Hung || res.Err != nil {
+		return v.Failf("%s: hung=%v err=%v", line, res.Hung, res.Err)
+	}
+	got := map[string]int{}
+	for _, l := range strings.Split(strings.TrimSuffix(res.Stdout, "\n"), "\n") {
+		if l == "" {
+			continue
+		}
+		k, err := recordKey(kind, l)
+		if err != nil {
+			return v.Failf("%s: %v", line, err)
+		}
+		got[k]++
+	}
+	var miss, extra []string
+	for k, n := range want {
+		if got[k] < n {
+			miss = append(miss, fmt.Sprintf("%s x%d", k, n-got[k]))
+		}
+	}
+	for k, n := range got {
+		if n > want[k] {
+			extra = append(extra, fmt.Sprintf("%s x%d", k, n-want[k]))
+		}
+	}
+	if len(extra) > 0 || len(miss) > 0 {
+		sort.Strings(miss)
+		sort.Strings(extra)
+		return v.Failf("%s\n%d reply-shaped frames arrived in one burst while the consumer of stdout was slow (%d us per 256 bytes): records missing %v, surplus %v", line, len(frames), c.SlowUs, clipList(miss, 4), clipList(extra, 4))
+	}
+	v.NonTrivial = len(frames) > 2000
+	return v
+}
+
+func TestC03Burst(t *testing.T) {
+	kit.Run(t, kit.Spec[c03BurstCase]{
+		Prop: "C03",
+		Rule: "arp / icmp / tcp fin / tcp syn on the virtual wire: right after the first probe 500..6000 DISTINCT reply-shaped frames arrive in one burst (more than the two 1000-slot result buffers) while the consumer of stdout is slow for the first 200 ms (256 bytes per 50..300 us); exit delay 1.5 s, so the backlog is drained long before the exit. Oracle: exactly one record per frame (multiset equality) - nothing lost, duplicated or swapped in the hand-off under back-pressure. non-trivial: > 2000 frames; distinct by case",
+		Gen: func(t *rapid.T) c03BurstCase {
+			return c03BurstCase{Cmd: rapid.SampledFrom([]string{"arp", "icmp", "tcp fin", "tcp syn"}).Draw(t, "cmd"), Replies: rapid.SampledFrom([]int{500, 2100, 3000, 6000}).Draw(t, "replies"),
+				SlowUs: rapid.SampledFrom([]int{50, 120, 300}).Draw(t, "slow"), Seed: rapid.Int64().Draw(t, "seed")}
+		},
+		Check: c03BurstCheck,
 	})
 }
